@@ -196,11 +196,13 @@ def area_symbolic(name, op):
                      (b[0] - a[0]) * (c[1] - a[1]) - (b[1] - a[1]) * (c[0] - a[0])]
                 sx.assume(sum(x * x for x in n) != 0)
             if planar:
-                for F in faces:          # convex, positively oriented
+                for F in faces:          # convex, positively oriented: every triple in cyclic order turns left
                     k = len(F)
                     for i in range(k):
-                        a, b, c = P[F[i]], P[F[(i + 1) % k]], P[F[(i + 2) % k]]
-                        sx.assume((b[0] - a[0]) * (c[1] - a[1]) - (b[1] - a[1]) * (c[0] - a[0]) > 0)
+                        for j in range(i + 1, k):
+                            for l in range(j + 1, k):
+                                a, b, c = P[F[i]], P[F[j]], P[F[l]]
+                                sx.assume((b[0] - a[0]) * (c[1] - a[1]) - (b[1] - a[1]) * (c[0] - a[0]) > 0)
             mesh = meshgen.build([meshgen.vec3(*p) for p in P], (), faces)
             total0 = A.total_area(mesh)
             try:
